@@ -199,6 +199,9 @@ def run(ck, fx, cg, tier):
         acts = ["".join(a.action.split()) for a in r_n.alts]
         okn = len(acts) == 1 and bool(re.fullmatch(r"AST::integer\((i32::from_str\(<>\)|<>\.parse(::<i32>)?\(\))\.(unwrap\(\)|expect\(\"[^\"]*\"\))\)", acts[0]))
         ck.ob("R7.literals", "numbers", okn, "src/fml.lalrpop:%d" % r_n.line, "action %s; expected the digits parsed as an i32 and nothing else" % acts)
+    # string literals: the terminal and the action that strips the quotes (C15's lexer rules) — the literal's text is part of the tree
+    _sh0 = __import__("engine.props.shared", fromlist=["x"])
+    _sh0.presuppose(ck, fx, cg, "C15", lambda o: o["rule"] == "R15.lexer", "R7.literals", "string literals denote their text (terminal + quote-stripping action)", floor=2)
     # ---------------------------------------------------------------- the constructors the actions call are plain
     from . import shared as _sh
     n_ctor = 0
